@@ -151,10 +151,17 @@ def handle_failure(run, r, wsdir, root, native, logdir, tdir):
     """A Kani harness failed: extract the assignment, replay natively, classify."""
     h = r["harness"]
     desc = r["failed"][0]["desc"]
-    # re-run with concrete playback to obtain the assignment
-    r2 = kani.run(wsdir, "steel-rc", h, logdir + "/cex", tdir, 600,
-                  extra=["-Z", "concrete-playback", "--concrete-playback=print"], modpath="verif_rc")
-    vals = decode_cex(open(r2["log"], errors="replace").read(), desc)
+    # re-run with concrete playback to obtain the assignment; first the small-scope twin
+    # (counters <= 3) so that the native search can reach the pre-state, else the harness itself
+    base = h.split("__kf_")[0]
+    vals = None
+    for cand in ([h + "__small"] if base in OPS else []) + [h]:
+        r2 = kani.run(wsdir, "steel-rc", cand, logdir + "/cex", tdir, 600,
+                      extra=["-Z", "concrete-playback", "--concrete-playback=print"], modpath="verif_rc")
+        vals = decode_cex(open(r2["log"], errors="replace").read(), desc)
+        if vals:
+            break
+    h = base
     if not vals or h not in OPS:
         return "inconclusive", "counterexample values could not be extracted for %s (%s)" % (h, desc), None
     pre, tgt, op = target_from_cex(h, vals)
